@@ -1518,6 +1518,7 @@ package router
 //@   callsite handleServerReq?: [C03:this-query-is-handled] arg1 == m && arg2 == rc
 //@   callsite mustHaveRespB?: [C03:the-answer-to-this-query-is-what-is-sent] arg0 == m && arg1 == rc.Response.Msg
 //@   callsite SetBody?: [C03:the-packed-response-is-the-body] arg1 == gB && len(arg1) >= 12
+//@   callsite ReleaseBuf?: [C20:a-buffer-the-server-still-holds-is-not-recycled] !attr(lent, arg0)
 
 // udpServer.startThreadOthers (portable read loop): every datagram read is handed to handleMsg once, as exactly
 // the bytes (and control bytes) that were read, with the address it came from; a read error with nothing read ends
